@@ -45,7 +45,8 @@ def replay(recipe):
 
 def run(ctx):
     out = SP.run_streams(ctx, MASK, monitor, 'priority-pool-contract', [
-        ('G-sim-ppool', 380, 6000, dict(algo='priority-pool')),
+        ('G-sim-ppool', 300, 6000, dict(algo='priority-pool')),
+        ('G-sim-saturate-ppool', 120, 2000, dict(saturate='priority-pool')),
     ])
     out['rule'] = ('whole run_simulator runs with priority-pool on two pools, all priority mixes, RAM sized so that OOM '
                    'retries double 1-3 times and hit the 50% cut-off; compared per tick: decisions, results, free '
